@@ -642,6 +642,9 @@ def desugar_comprehension(
         if g.is_async:
             raise GuppyError(UnsupportedError(g, "Async generators"))
         g.iter = builder.visit(g.iter)
+        # The target and the conditions can contain further comprehensions
+        g.target = builder.visit(g.target)
+        g.ifs = [builder.visit(cond) for cond in g.ifs]
         it = make_var(next(tmp_vars), g.iter)
         desugared = DesugaredGenerator(
             iter=it,
